@@ -94,8 +94,10 @@ class Obligation:
     clause: str = ''
     start_off: int = 0      # offsets in the dump text (fn item start .. body close)
     end_off: int = 0
-    start_line: int = 0     # 0-based line range in the annotated module text
+    start_line: int = 0     # 0-based line range of the function in the annotated module text
     end_line: int = 0
+    clause_text: str = ''   # the inserted clause (one line); '' for body/invariant obligations
+    clause_line: int = -1   # 0-based line of that clause in the annotated module text
 
 
 @dataclass
@@ -134,19 +136,23 @@ class Annotator:
         self.ins.append((off, self._seq, text))
 
     # ---------------------------------------------------------------- helpers
-    def _ret(self, fn: Fn, clause: str, retname='r'):
+    def _ret(self, fn: Fn, clause, retname='r'):
+        """clause: a string or a list of strings; each goes on its own line so that the verifier's
+        span of a failing postcondition identifies the clause."""
         if fn.ret_start is None:
             raise Undecided('fn %s has no return type' % fn.name)
+        clauses = [clause] if isinstance(clause, str) else list(clause)
         self.insert(fn.ret_start, '(%s: ' % retname)
         self.insert(fn.ret_end, ')')
-        self.insert(fn.body_open, '\n            ensures ' + clause + '\n        ')
+        self.insert(fn.body_open, '\n            ensures\n' + ''.join('                %s,\n' % c for c in clauses) + '        ')
 
     def _returns(self, fn: Fn, expr: str):
         self.insert(fn.body_open, '\n            returns (' + expr + ')\n        ')
 
-    def _obl(self, fn_label, kind, props, clause, fn: Optional[Fn]):
+    def _obl(self, fn_label, kind, props, clause, fn: Optional[Fn], clause_text=''):
         self.obls.append(Obligation(decl=self.d.id, fn=fn_label, kind=kind, props=props, clause=clause,
-                                    start_off=fn.start if fn else 0, end_off=fn.body_close if fn else 0))
+                                    start_off=fn.start if fn else 0, end_off=fn.body_close if fn else 0,
+                                    clause_text=clause_text))
 
     # ---------------------------------------------------------------- main
     def run(self) -> Annotated:
@@ -197,10 +203,18 @@ class Annotator:
         def new_off(o, inclusive):
             return o + sum(len(t) for off, _, t in ins if (off <= o if inclusive else off < o))
         for ob in self.obls:
+            if ob.kind == 'lemma':
+                ob.start_line = ob.end_line = -1
+                continue
             a = new_off(ob.start_off, False)
             b = new_off(ob.end_off, True)
             ob.start_line = text.count('\n', 0, a)
             ob.end_line = text.count('\n', 0, b)
+            if ob.clause_text:
+                p = text.find(ob.clause_text, a, b + 1)
+                if p < 0:
+                    raise Undecided('inserted clause not found again: ' + ob.clause_text)
+                ob.clause_line = text.count('\n', 0, p)
         self.spec_start_line = text.count('\n', 0, new_off(mod.end - 1, False))
         ann = Annotated(d, text, [(o, t) for o, _, t in ins], self.obls, self.external, self.uncontracted)
         ann.spec_start_line = self.spec_start_line
@@ -259,78 +273,64 @@ class Annotator:
             raise Undecided('trait impl with %d fns: %s' % (len(it.fns), h.trait_full))
         fn = it.fns[0]
         label = '%s::%s' % (re.sub(r'^(::)?(core|std|alloc)::([a-z_]+::)*', '', h.trait_full), fn.name)
+        string = d.family == 'string'
+        vw = (lambda e: e + '@') if string else (lambda e: e)
         if t == 'TryFrom':
-            arg = h.trait_args
             raw = self._param_name(sc, fn)
-            if d.family == 'string':
-                self._ret(fn, 'Self::spec_post(%s@, r)' % raw)
-                self.specimpls.append(('TryFrom', arg, False))
-                self._obl(label, 'contract', ['C03', 'C05'], 'spec_post(raw@, r)', fn)
+            self.specimpls.append(('TryFrom', h.trait_args))
+            if d.has_validation:
+                c = 'Self::spec_post(%s, r)' % vw(raw)
             else:
-                self.specimpls.append(('TryFrom', arg, True))
-                self._obl(label, 'contract', ['C03', 'C05'], 'r == try_from_spec(raw) == spec_try_new(raw)', fn)
+                c = 'r is Ok && r->Ok_0.spec_view() == Self::spec_sanitize(%s)' % vw(raw)
+            self.contract(fn, label, [(['C03'], c, 'try_from(raw) yields exactly what the constructor yields: ' + c)])
         elif t == 'From' and self_is_X:
             raw = self._param_name(sc, fn)
-            if d.family == 'string':
-                self._ret(fn, 'r.spec_view() == Self::spec_sanitize(%s@)' % raw)
-                self.specimpls.append(('FromInner', h.trait_args, False))
-            else:
-                self.specimpls.append(('FromInner', h.trait_args, True))
-            self._obl(label, 'contract', ['C03', 'C05'], 'r.view == spec_sanitize(raw.view)', fn)
+            self.specimpls.append(('FromInner', h.trait_args))
+            c = 'r.spec_view() == Self::spec_sanitize(%s)' % vw(raw)
+            self.contract(fn, label, [(['C03'], c, 'from(raw) wraps exactly the sanitized value')])
         elif t == 'From':
-            # From<X> for Inner  (Into)
             raw = self._param_name(sc, fn)
-            if d.family == 'string':
-                self._ret(fn, 'r@ == %s.spec_view()' % raw)
-                self.specimpls.append(('IntoInner', h.self_ty, False))
-            else:
-                self.specimpls.append(('IntoInner', h.self_ty, True))
-            self._obl(label, 'contract', ['C13'], 'r == x.view', fn)
+            self.specimpls.append(('IntoInner', h.self_ty))
+            c = '%s == %s.spec_view()' % (vw('r'), raw)
+            self.contract(fn, label, [(['C13'], c, 'into() is exactly the stored inner value')])
         elif t in ('AsRef', 'Deref', 'Borrow'):
-            target = sc.s[fn.ret_start:fn.ret_end]
-            if d.family == 'string':
-                # &str / &String both view as Seq<char>
-                expr = 'self.spec_view()'
-                if t == 'Borrow':
-                    raise_unsup = False
-                    # Verus cannot take a named return on Borrow (blanket impl ambiguity): the
-                    # obligation is stated through the view of the returned reference in `returns`
-                    # only for non-string types; for strings it is left to the type invariant and
-                    # reported as uncontracted.
+            if t == 'Borrow':
+                if string:
+                    # Verus cannot take a named return on Borrow (blanket-impl ambiguity) and a
+                    # `returns` expression of type &str/&String cannot be written from a Seq<char>:
+                    # left to the type invariant, reported as uncontracted; covered on the Kani side.
                     self.uncontracted.append(label)
-                    self._obl(label, 'invariant_only', ['C05'], '', fn)
+                    self._obl(label + '#body', 'body', ['C05'], 'type invariant', fn)
                 else:
-                    self._ret(fn, 'r@ == self.spec_view()')
-                    self._obl(label, 'contract', ['C13', 'C05'], 'r@ == self.view', fn)
-            else:
-                if t == 'Borrow':
                     self._returns(fn, '&Self::spec_view(*self)')
-                    self._obl(label, 'contract', ['C13', 'C05'], 'returns &self.view', fn)
-                else:
-                    self._ret(fn, '*r == self.spec_view()')
-                    self._obl(label, 'contract', ['C13', 'C05'], '*r == self.view', fn)
+                    self._obl(label, 'contract', ['C13'], 'borrow() returns a reference to exactly the stored inner value', fn,
+                              clause_text='returns (&Self::spec_view(*self))')
+                    self._obl(label + '#body', 'body', ['C05'], 'type invariant', fn)
+            else:
+                c = ('r@ == self.spec_view()' if string else '*r == self.spec_view()')
+                self.contract(fn, label, [(['C13'], c, '%s exposes exactly the stored inner value' % fn.name)])
         elif t == 'FromStr':
             raw = self._param_name(sc, fn)
-            self._ret(fn, 'Self::spec_post(%s@, r)' % raw if d.has_validation else 'r is Ok && r->Ok_0.spec_view() == Self::spec_sanitize(%s@)' % raw)
-            self._obl(label, 'contract', ['C03', 'C05'], 'spec_post(s@, r)', fn)
-        elif t == 'Default':
-            if d.family == 'string':
-                self.uncontracted.append(label)
-                self._obl(label, 'invariant_only', ['C05'], '', fn)
-            else:
-                self._ret(fn, 'r.spec_view() == Self::spec_sanitize(%s)' % d.default_spec())
-                self._obl(label, 'contract', ['C03', 'C05'], 'r.view == spec_sanitize(default)', fn)
-        elif t == 'IntoIterator':
-            self.uncontracted.append(label)
-            self._obl(label, 'invariant_only', ['C05'], '', fn)
+            c = ('Self::spec_post(%s@, r)' % raw if d.has_validation
+                 else 'r is Ok && r->Ok_0.spec_view() == Self::spec_sanitize(%s@)' % raw)
+            self.contract(fn, label, [(['C03'], c, 'from_str(s) yields exactly what the constructor yields for s')])
+        elif t == 'Default' and not string:
+            c = 'r.spec_view() == Self::spec_sanitize(%s)' % d.default_spec()
+            self.contract(fn, label, [(['C03'], c, 'default() == new(default expression)')])
         else:
             self.uncontracted.append(label)
-            self._obl(label, 'invariant_only', ['C05'], '', fn)
+            self._obl(label + '#body', 'body', ['C05'], 'type invariant', fn)
 
     specimpls: list
 
-    def _copyable(self):
-        return self.d.family in ('int', 'float')
+    def contract(self, fn: Fn, label: str, clauses, body_props=('C05',)):
+        """clauses: [(props, clause_text, description)]; one obligation per clause + one for the body."""
+        self._ret(fn, [c[1] for c in clauses])
+        for i, (props, text, desc) in enumerate(clauses):
+            name = label if i == 0 else '%s#%s' % (label, props[0])
+            self._obl(name, 'contract', list(props), desc, fn, clause_text=text)
+        self._obl(label + '#body', 'body', list(body_props),
+                  'every value constructed in the body meets the type invariant (validators hold); no panic / overflow', fn)
 
     def _param_name(self, sc: Scan, fn: Fn):
         params = sc.s[fn.params_open + 1:fn.params_close]
@@ -346,43 +346,45 @@ class Annotator:
         m = re.match(r'\s*(?:mut\s+)?([A-Za-z_][A-Za-z0-9_]*)\s*:', sc_params)
         p = m.group(1) if m else 'self'
         string = d.family == 'string'
+        E = d.error_type
+        ctor_props = ['C01', 'C02'] + (['C11'] if 'C11' in d.props else [])
         if name == 'try_new':
             seen.add(name)
             if string:
-                self._ret(fn, 'exists|s: String| #![auto] call_ensures(Into::<String>::into, (%s,), s) && Self::spec_post(s@, r)' % p)
-                clause = 'exists s. into(raw) = s && spec_post(s@, r)'
+                c1 = 'exists|s: String| #![auto] call_ensures(Into::<String>::into, (%s,), s) && Self::spec_post(s@, r)' % p
+                c7 = ('r is Err ==> exists|s: String| #![auto] call_ensures(Into::<String>::into, (%s,), s) && '
+                      'Self::spec_validate(Self::spec_sanitize(s@)) == Err::<(), %s>(r->Err_0)' % (p, E))
             else:
-                self._ret(fn, 'r == Self::spec_try_new(%s)' % p)
-                clause = 'r == spec_try_new(raw)'
-            self._obl(name, 'contract', ['C01', 'C02', 'C05', 'C07'], clause, fn)
+                c1 = 'r == Self::spec_try_new(%s)' % p
+                c7 = 'r is Err ==> Self::spec_validate(Self::spec_sanitize(%s)) == Err::<(), %s>(r->Err_0)' % (p, E)
+            self.contract(fn, name, [
+                (ctor_props, c1, 'try_new(raw) == match validate(sanitize(raw)) { Ok => Ok(X(sanitize(raw))), Err(e) => Err(e) }'),
+                (['C07'], c7, 'a rejection carries the variant of the FIRST validator (written order) that sanitize(raw) violates'),
+            ], body_props=('C05', 'C01'))
         elif name == 'new':
             seen.add(name)
             if string:
-                self._ret(fn, 'exists|s: String| #![auto] call_ensures(Into::<String>::into, (%s,), s) && r.spec_view() == Self::spec_sanitize(s@)' % p)
+                c1 = 'exists|s: String| #![auto] call_ensures(Into::<String>::into, (%s,), s) && r.spec_view() == Self::spec_sanitize(s@)' % p
             else:
-                self._ret(fn, 'r.spec_view() == Self::spec_sanitize(%s)' % p)
-            self._obl(name, 'contract', ['C01', 'C02', 'C05'], 'r.view == spec_sanitize(raw)', fn)
+                c1 = 'r.spec_view() == Self::spec_sanitize(%s)' % p
+            self.contract(fn, name, [(ctor_props, c1, 'new(raw) wraps exactly sanitize(raw)')], body_props=('C05', 'C01'))
         elif name == '__sanitize__':
             seen.add(name)
-            if string:
-                self._ret(fn, 'r@ == Self::spec_sanitize(%s@)' % p)
-            else:
-                self._ret(fn, 'r == Self::spec_sanitize(%s)' % p)
-            self._obl(name, 'contract', ['C01', 'C02'], 'r == spec_sanitize(value)', fn)
+            c1 = 'r@ == Self::spec_sanitize(%s@)' % p if string else 'r == Self::spec_sanitize(%s)' % p
+            self.contract(fn, name, [(ctor_props, c1, 'sanitizers applied in written order, nothing skipped')], body_props=('C01',))
         elif name == '__validate__':
             seen.add(name)
-            if string:
-                self._ret(fn, 'r == Self::spec_validate(%s@)' % p)
-            else:
-                self._ret(fn, 'r == Self::spec_validate(*%s)' % p)
-            self._obl(name, 'contract', ['C01', 'C02', 'C07'], 'r == spec_validate(val)  (whole Result: variant and order)', fn)
+            arg = '%s@' % p if string else '*%s' % p
+            c1 = 'r == Self::spec_validate(%s)' % arg
+            c7 = 'r is Err ==> r == Self::spec_validate(%s)' % arg
+            self.contract(fn, name, [
+                (ctor_props, c1, 'Ok exactly when every declared validator accepts; whole-Result equality'),
+                (['C07'], c7, 'when it rejects, the variant is that of the first violated validator in written order'),
+            ], body_props=('C01',))
         elif name == 'into_inner':
             seen.add(name)
-            if string:
-                self._ret(fn, 'r@ == self.spec_view()')
-            else:
-                self._ret(fn, 'r == self.spec_view()')
-            self._obl(name, 'contract', ['C01', 'C13'], 'r == self.view', fn)
+            c1 = 'r@ == self.spec_view()' if string else 'r == self.spec_view()'
+            self.contract(fn, name, [(['C01', 'C13'] + (['C11'] if 'C11' in d.props else []), c1, 'into_inner() is exactly the stored value')], body_props=('C01',))
         elif name == 'new_unchecked':
             if d.new_unchecked and re.search(r'\bunsafe\b', fn.quals):
                 self.insert(fn.start, EXTERNAL_ATTR)
@@ -390,10 +392,10 @@ class Annotator:
             else:
                 # present without the flag, or safe: stays under the type invariant and fails there
                 self.uncontracted.append(name)
-                self._obl(name, 'invariant_only', ['C05'], '', fn)
+                self._obl(name + '#body', 'body', ['C05'], 'type invariant', fn)
         else:
             self.uncontracted.append(name)
-            self._obl(name, 'invariant_only', ['C05'], '', fn)
+            self._obl(name + '#body', 'body', ['C05'], 'type invariant', fn)
 
     # ---------------------------------------------------------------- spec block
     def spec_block(self):
@@ -421,6 +423,7 @@ class Annotator:
                            '                Err(e) => r == Err::<Self, %s>(e),\n'
                            '            }\n        }\n' % (E, E))
             else:
+                out.append('        pub closed spec fn spec_post(raw: %s, r: ::core::result::Result<Self, %s>) -> bool { r == Self::spec_try_new(raw) }\n' % (VT, E))
                 out.append('        pub closed spec fn spec_try_new(raw: %s) -> ::core::result::Result<Self, %s> {\n'
                            '            match Self::spec_validate(Self::spec_sanitize(raw)) {\n'
                            '                Ok(_) => Ok(%s(Self::spec_sanitize(raw))),\n'
@@ -430,31 +433,54 @@ class Annotator:
                        '        closed spec fn spec_inv(self) -> bool { Self::spec_validate(%s) is Ok }\n'
                        % ('self.0@' if string else 'self.0'))
         out.append('    }\n')
-        for kind, arg, obeys in getattr(self, 'specimpls', []):
+        for kind, arg in getattr(self, 'specimpls', []):
+            # the vstd trait-spec extensions are declared with obeys_* = false: the obligation is the
+            # explicit `ensures` inserted on the method, identical for every family
             if kind == 'TryFrom':
                 errty = E if d.has_validation else '::core::convert::Infallible'
-                body = 'Self::spec_try_new(v)' if (obeys and d.has_validation) else ('Ok(%s(Self::spec_sanitize(v)))' % X if obeys else 'arbitrary()')
                 out.append('    impl%s vstd::std_specs::convert::TryFromSpecImpl<%s> for %s%s {\n'
-                           '        open spec fn obeys_try_from_spec() -> bool { %s }\n'
-                           '        closed spec fn try_from_spec(v: %s) -> ::core::result::Result<Self, %s> { %s }\n'
-                           '    }\n' % (G, arg, X, GA, 'true' if obeys else 'false', arg, errty, body))
+                           '        open spec fn obeys_try_from_spec() -> bool { false }\n'
+                           '        closed spec fn try_from_spec(v: %s) -> ::core::result::Result<Self, %s> { arbitrary() }\n'
+                           '    }\n' % (G, arg, X, GA, arg, errty))
             elif kind == 'FromInner':
-                body = '%s(Self::spec_sanitize(v))' % X if obeys else 'arbitrary()'
                 out.append('    impl%s vstd::std_specs::convert::FromSpecImpl<%s> for %s%s {\n'
-                           '        open spec fn obeys_from_spec() -> bool { %s }\n'
-                           '        closed spec fn from_spec(v: %s) -> Self { %s }\n'
-                           '    }\n' % (G, arg, X, GA, 'true' if obeys else 'false', arg, body))
+                           '        open spec fn obeys_from_spec() -> bool { false }\n'
+                           '        closed spec fn from_spec(v: %s) -> Self { arbitrary() }\n'
+                           '    }\n' % (G, arg, X, GA, arg))
             elif kind == 'IntoInner':
-                body = 'v.spec_view()' if obeys else 'arbitrary()'
                 out.append('    impl%s vstd::std_specs::convert::FromSpecImpl<%s%s> for %s {\n'
-                           '        open spec fn obeys_from_spec() -> bool { %s }\n'
-                           '        closed spec fn from_spec(v: %s%s) -> Self { %s }\n'
-                           '    }\n' % (G, X, GA, arg, 'true' if obeys else 'false', X, GA, body))
+                           '        open spec fn obeys_from_spec() -> bool { false }\n'
+                           '        closed spec fn from_spec(v: %s%s) -> Self { arbitrary() }\n'
+                           '    }\n' % (G, X, GA, arg, X, GA))
         out.extend(self.lemmas())
         return ''.join(out)
 
     def lemmas(self):
-        return []
+        d = self.d
+        out = []
+        if 'C11' in d.props and all(s.kind != 'with' for s in d.sanitizers):
+            X = d.name
+            VT = d.view_type()
+            use = '            broadcast use group_c11_std_axioms;\n' if d.family == 'string' and d.sanitizers else ''
+            out.append('    impl%s %s%s {\n' % (d.generics, X, d.generic_args))
+            if d.has_validation and d.family == 'string':
+                out.append('        pub proof fn lemma_c11_canonical(raw: Seq<char>, r: ::core::result::Result<Self, %s>)\n'
+                           '            requires Self::spec_post(raw, r), r is Ok,\n'
+                           '            ensures Self::spec_post(r->Ok_0.spec_view(), r), Self::spec_sanitize(r->Ok_0.spec_view()) == r->Ok_0.spec_view(),\n'
+                           '        {\n%s        }\n' % (d.error_type, use))
+            elif d.has_validation:
+                out.append('        pub proof fn lemma_c11_canonical(raw: %s, v: Self)\n'
+                           '            requires Self::spec_try_new(raw) == Ok::<Self, %s>(v),\n'
+                           '            ensures Self::spec_try_new(v.spec_view()) == Ok::<Self, %s>(v),\n'
+                           '        {\n%s        }\n' % (VT, d.error_type, d.error_type, use))
+            else:
+                out.append('        pub proof fn lemma_c11_canonical(raw: %s)\n'
+                           '            ensures Self::spec_sanitize(Self::spec_sanitize(raw)) == Self::spec_sanitize(raw),\n'
+                           '        {\n%s        }\n' % (VT, use))
+            out.append('    }\n')
+            self.obls.append(Obligation(decl=d.id, fn='lemma_c11_canonical', kind='lemma', props=['C11'],
+                                        clause='spec_try_new(raw) == Ok(v) ==> spec_try_new(v.view) == Ok(v)   (over the spec functions tied to the code by the C01 contracts)'))
+        return out
 
 
 def annotate(decl: Decl, dump_text: str) -> Annotated:
